@@ -114,6 +114,38 @@ func streamBookkeepingRule(c *Ctx) {
 	}
 	firstCond := dg.condVertices()
 	c.Check(ok && len(firstCond) > 0 && dg.Dominates(firstCond[0]-1, delV), "deliverLocked:account-before-any-return", dl, dg.Node(delV), "the response is recorded (request removed from s.requests) before any early return, so completion accounting survives a disconnected stream")
+	// the completion criterion itself: "done" implies that no request of the stream is unanswered
+	impliesEmpty := func(f *Func, e ast.Expr) bool {
+		var atoms []Atom
+		splitAtoms(e, true, &atoms)
+		return hasAtom(atoms, func(a Atom) bool {
+			x, y, op, isCmp := binaryCmp(a.E)
+			if !isCmp || !a.Val || op != token.EQL {
+				return false
+			}
+			lc, isCall := ast.Unparen(x).(*ast.CallExpr)
+			z, isZ := f.ConstInt(y)
+			return isCall && f.BuiltinName(lc) == "len" && f.IsField(lc.Args[0], requests) && isZ && z == 0
+		})
+	}
+	doneRes := dl.NamedResult(0)
+	c.Need(doneRes != nil, "deliverLocked: named result done")
+	nDone := 0
+	for _, w := range dl.writesToVar(dl.Body, doneRes, true) {
+		as, isAs := w.(*ast.AssignStmt)
+		nDone++
+		c.Check(isAs && len(as.Rhs) == 1 && impliesEmpty(dl, as.Rhs[0]) && dg.ReachableFrom(delV)[dg.VertexOf(w)], "deliverLocked:done-means-no-request-left", dl, w, "the stream is reported complete only when, after this response was recorded, s.requests is empty: completing on the first response of a batch drops the other responses")
+	}
+	c.Pin("assignments to deliverLocked's done result", nDone, 1)
+	for i, r := range dl.Returns() {
+		if len(r.Results) == 2 {
+			c.Check(dl.ObjOf(r.Results[0]) == doneRes, "deliverLocked:returns-done#"+itoa(i), dl, r, "every return reports the computed completion value")
+		}
+	}
+	dn := c.Fn(pM, "stream", "doneLocked")
+	for i, r := range dn.Returns() {
+		c.Check(len(r.Results) == 1 && impliesEmpty(dn, r.Results[0]), "doneLocked:means-no-request-left#"+itoa(i), dn, r, "on resumption a stream counts as complete only when s.requests is empty")
+	}
 }
 
 func rulesC08(c *Ctx) {
